@@ -169,12 +169,28 @@ OOB = [("Int", True, [("Int", (1,))]), ("Int", 1.0, [("Int", (1,))]), ("Int", Fr
        ("Real", True, [("Real", (1,))]), ("Int", False, [("Int", (0,))]), ("String", 1, [("String", ("1",))]),
        ("Real", "1", [("Real", (1,))]), ("Int", "0", [("Int", (0,))]),
        ("Real", (3.0, 4.0), [("Real", ((3, 4),))]), ("Real", (True, 4), [("Real", ((1, 4),))]),
-       ("Real", (Fraction(3), 4), [("Real", ((3, 4),))])]
+       ("Real", (Fraction(3), 4), [("Real", ((3, 4),))]),
+       ("Real", __import__("decimal").Decimal("0.5"), [("Real", (0.5,))]), ("Real", 1 + 0j, [("Real", (1,))]),
+       ("Int", __import__("decimal").Decimal("2"), [("Int", (2,))])]
+
+
+def reftype_bool(b):
+    try:
+        return reftype(b) == BOOL
+    except IllTyped:
+        return False
 
 
 def gen_case(rnd):
     g = G(cfg=CFG, rnd=rnd)
     probe = g.term(BOOL if g.pct(70) else g.ty())
+    if g.pct(15):
+        # top-level equalities between symbols (what propagate_toplevel picks representatives from)
+        T = g.choice([INT, REAL, BV(2)])
+        a_, b_, c_ = g.symbol(T), g.symbol(T), g.symbol(T)
+        eqs = [("EQUALS", (), (a_, b_))] + ([("EQUALS", (), (c_, b_))] if g.pct(50) else [])
+        body = probe if reftype_bool(probe) else ("EQUALS", (), (probe, probe))
+        probe = ("AND", (), tuple(eqs + [body, ("NOT", (), (("EQUALS", (), (a_, g.term(T, 1))),))]))
     rel = related_formulas(g, probe) + [probe, probe]
     if g.pct(50):
         rel.append(g.term(g.ty(), 2))
